@@ -16,6 +16,7 @@ import (
 	"runtime"
 	"slices"
 	"strings"
+	"sync"
 
 	"golang.org/x/tools/go/ssa"
 )
@@ -26,6 +27,8 @@ func mustDeref(t types.Type) types.Type {
 	}
 	panic(fmt.Sprintf("mustDeref: %v is not a pointer", t))
 }
+
+var extCache sync.Map // *ssa.Function -> externalFn (nil when interpreted)
 
 type continuation int
 
@@ -60,6 +63,7 @@ type interpreter struct {
 	initDone           map[*ssa.Package]bool
 	callDepth          int
 	dbgStack           []string
+	fnSeen             map[*ssa.Function]int
 	onceDone           map[*value]bool
 	syncMaps           map[*value]*omap
 }
@@ -88,6 +92,11 @@ type frame struct {
 func (i *interpreter) globalCell(g *ssa.Global) *value {
 	if r, ok := i.globals[g]; ok {
 		return r
+	}
+	if i.ex != nil && i.ex.baseGlobals != nil {
+		if r, ok := i.ex.baseGlobals[g]; ok {
+			return r
+		}
 	}
 	cell := zero(mustDeref(g.Type()))
 	r := &cell
@@ -525,14 +534,18 @@ func callSSA(i *interpreter, caller *frame, callpos token.Pos, fn *ssa.Function,
 		fn:     fn,
 	}
 	if fn.Parent() == nil {
-		name := fn.String()
-		if ext := externals[name]; ext != nil {
-			return ext(fr, args)
-		}
-		if fn.Pkg != nil && i.ex != nil {
-			if h := i.ex.intrinsic(fn); h != nil {
-				return h(fr, args)
+		var ext externalFn
+		if c, ok := extCache.Load(fn); ok {
+			ext = c.(externalFn)
+		} else {
+			ext = externals[fn.String()]
+			if ext == nil && fn.Pkg != nil && i.ex != nil {
+				ext = i.ex.intrinsic(fn)
 			}
+			extCache.Store(fn, ext)
+		}
+		if ext != nil {
+			return ext(fr, args)
 		}
 		if fn.Synthetic == "package initializer" {
 			if !i.ex.shouldInit(fn.Pkg) {
@@ -540,12 +553,10 @@ func callSSA(i *interpreter, caller *frame, callpos token.Pos, fn *ssa.Function,
 			}
 		}
 		if fn.Blocks == nil {
-			i.abort("unsupported", "no code for function: "+name)
+			i.abort("unsupported", "no code for function: "+fn.String())
 		}
 	}
-	if i.ex != nil {
-		i.ex.noteFunc(fn)
-	}
+	i.fnSeen[fn]++
 
 	// generic function body?
 	if fn.TypeParams().Len() > 0 && len(fn.TypeArgs()) == 0 {
@@ -710,6 +721,7 @@ func newInterpreter(ex *Explorer, mode Mode) *interpreter {
 		sizes:    ex.Sizes,
 		ex:       ex,
 		initDone: map[*ssa.Package]bool{},
+		fnSeen:   map[*ssa.Function]int{},
 	}
 	i.runtimeErrorString = ex.runtimeErrorString
 	initReflect(i)
